@@ -330,6 +330,7 @@ func genJSONTypes(c *ctx, st *cs.Stream) {
 }
 
 func genC11(c *ctx) {
+	unregAnyType = false
 	st := c.set.Stream("codec", "Corr.RunM", "run", 120)
 	genJSONTypes(c, st)
 	r := c.r
@@ -597,6 +598,7 @@ func exerciseHeader(h string) {
 }
 
 func genC12(c *ctx) {
+	unregAnyType = false
 	st := c.set.Stream("malformed", "Corr.RunM", "run", 400)
 	r := c.r
 	debug.SetGCPercent(100)
@@ -792,7 +794,7 @@ func genC12(c *ctx) {
 		}
 	}
 	c.set.Notes["fuzz"] = map[string]any{"inputs": n, "json_docs": nj, "panics": panics, "max_alloc_bytes": worst, "max_alloc_input_prefix": worstIn,
-		"alloc_bound": "256*len + 64 MiB (TotalAlloc delta over all operations on the input); decoding alone 64*len + 8 MiB",
+		"alloc_bound":                "256*len + 64 MiB (TotalAlloc delta over all operations on the input); decoding alone 64*len + 8 MiB",
 		"remeasured_from_fresh_pool": remeasured}
 }
 
